@@ -20,6 +20,7 @@ enum Cand {
     Dangling,
     Text,
     Missing,
+    Busy, // a real program that is open for writing while the launch runs: execve fails with ETXTBSY, the search must go on
 }
 
 #[derive(Clone, Debug)]
@@ -33,9 +34,14 @@ enum Entry {
     Relative(usize, Cand), // directory given relative to the child's cwd
 }
 
-fn make_cand(ctx: &Ctx, dir: &Path, name: &str, c: Cand) {
+fn make_cand(ctx: &Ctx, dir: &Path, name: &str, c: Cand) -> Option<std::fs::File> {
     let p = dir.join(name);
     match c {
+        Cand::Busy => {
+            // a private copy (never a link: the busy state belongs to the file, and vchild itself must stay startable)
+            std::fs::copy(&ctx.vchild, &p).unwrap();
+            return std::fs::OpenOptions::new().append(true).open(&p).ok();
+        }
         Cand::Exec => {
             if std::fs::hard_link(&ctx.vchild, &p).is_err() {
                 std::fs::copy(&ctx.vchild, &p).unwrap();
@@ -56,6 +62,7 @@ fn make_cand(ctx: &Ctx, dir: &Path, name: &str, c: Cand) {
         }
         Cand::Missing => {}
     }
+    None
 }
 
 fn path_case(ctx: &mut Ctx, rng: &mut Rng, i: u64, only_empty: bool) {
@@ -69,7 +76,7 @@ fn path_case(ctx: &mut Ctx, rng: &mut Rng, i: u64, only_empty: bool) {
     let mut entries: Vec<Entry> = vec![];
     let mut ndirs = 0;
     for _ in 0..nent {
-        let cand = *rng.pick(&[Cand::Exec, Cand::NoExec, Cand::Dir, Cand::Dangling, Cand::Text, Cand::Missing, Cand::Missing, Cand::Exec]);
+        let cand = *rng.pick(&[Cand::Exec, Cand::NoExec, Cand::Dir, Cand::Dangling, Cand::Text, Cand::Missing, Cand::Missing, Cand::Exec, Cand::Busy]);
         let e = match rng.below(12) {
             0 => Entry::Empty,
             1 => Entry::MissingDir,
@@ -90,6 +97,7 @@ fn path_case(ctx: &mut Ctx, rng: &mut Rng, i: u64, only_empty: bool) {
     // sprinkle empty entries anywhere (leading, trailing, doubled)
     let mut parts: Vec<(String, Option<(PathBuf, Cand)>)> = vec![]; // (PATH text, what the candidate under it is)
     let mut resolved: Vec<(String, Option<(PathBuf, Cand)>)> = vec![];
+    let mut held: Vec<std::fs::File> = vec![]; // write handles that keep the busy candidates busy until the launch has returned
     for e in &entries {
         let item = match e {
             Entry::Empty => ("".to_string(), None),
@@ -107,13 +115,13 @@ fn path_case(ctx: &mut Ctx, rng: &mut Rng, i: u64, only_empty: bool) {
             Entry::Dir(d, c) => {
                 let dir = root.join(format!("d{}", d));
                 std::fs::create_dir_all(&dir).unwrap();
-                make_cand(ctx, &dir, &name, *c);
+                held.extend(make_cand(ctx, &dir, &name, *c));
                 (dir.to_string_lossy().into_owned(), Some((dir.join(&name), *c)))
             }
             Entry::Relative(d, c) => {
                 let dir = cwd.join(format!("r{}", d));
                 std::fs::create_dir_all(&dir).unwrap();
-                make_cand(ctx, &dir, &name, *c);
+                held.extend(make_cand(ctx, &dir, &name, *c));
                 (format!("r{}", d), Some((dir.join(&name), *c)))
             }
         };
@@ -133,7 +141,7 @@ fn path_case(ctx: &mut Ctx, rng: &mut Rng, i: u64, only_empty: bool) {
         }
     }
     // a decoy in the child's cwd: must never be picked up through an empty entry
-    make_cand(ctx, &cwd, &name, Cand::Exec);
+    let _ = make_cand(ctx, &cwd, &name, Cand::Exec);
     // expected winner: first entry whose candidate can be started
     let winner: Option<PathBuf> = parts.iter().filter_map(|p| p.1.clone()).find(|(_, c)| *c == Cand::Exec).map(|(p, _)| p);
     let use_executable = rng.chance(300);
@@ -146,7 +154,7 @@ fn path_case(ctx: &mut Ctx, rng: &mut Rng, i: u64, only_empty: bool) {
     };
     let decoy_dir = root.join("childenv");
     std::fs::create_dir_all(&decoy_dir).unwrap();
-    make_cand(ctx, &decoy_dir, &name, Cand::Exec);
+    let _ = make_cand(ctx, &decoy_dir, &name, Cand::Exec);
     let config = PopenConfig {
         executable: if use_executable { Some(OsString::from(&name)) } else { None },
         cwd: Some(cwd.clone().into_os_string()),
@@ -190,6 +198,8 @@ fn path_case(ctx: &mut Ctx, rng: &mut Rng, i: u64, only_empty: bool) {
         Some(p) => std::env::set_var("PATH", p),
         None => std::env::remove_var("PATH"),
     }
+    ctx.count("busy_candidates_held_open_for_writing", held.len() as i64);
+    drop(held);
     let evs = m.events();
     let attempts: Vec<(i32, i64)> = evs.iter().filter(|e| e.child != 0 && (e.kind == k::EXECVE || e.kind == k::EXECV)).map(|e| (e.err, e.a[0])).collect();
     let shape = format!("{}{}{}", if only_empty { "only-empty-path" } else { "path" }, if use_executable { "+executable" } else { "" }, if route == "config" { "".to_string() } else { format!("/{}", route) });
@@ -272,11 +282,11 @@ fn slash_case(ctx: &mut Ctx, rng: &mut Rng, _i: u64) {
     let present = rng.chance(600);
     let absolute = rng.chance(300);
     if present {
-        make_cand(ctx, &sub, "prog", Cand::Exec);
+        let _ = make_cand(ctx, &sub, "prog", Cand::Exec);
     }
     // decoys that a PATH search for "sub/prog" or "prog" would find
-    make_cand(ctx, &pathdir.join("sub"), "prog", Cand::Exec);
-    make_cand(ctx, &pathdir, "prog", Cand::Exec);
+    let _ = make_cand(ctx, &pathdir.join("sub"), "prog", Cand::Exec);
+    let _ = make_cand(ctx, &pathdir, "prog", Cand::Exec);
     let out = root.join("winner.txt");
     let name = if absolute { sub.join("prog").to_string_lossy().into_owned() } else { rng.pick(&["sub/prog", "./sub/prog", "sub//prog"]).to_string() };
     let use_executable = rng.chance(300);
